@@ -735,7 +735,9 @@ fn process_input(
         have_pending_command = true;
     }
 
-    if !options.no_run_if_empty || have_pending_command {
+    // In replace mode (-I/-i) there is nothing to substitute without input,
+    // so the command is not run at all.
+    if have_pending_command || (!options.no_run_if_empty && builder_options.replace.is_none()) {
         result.combine(current_builder.execute()?);
     }
 
